@@ -360,10 +360,16 @@ def run_cases(exe, casefile, env=None, timeout=1800, max_restarts=200, extra_arg
 # known findings, replays, evidence
 
 def load_known():
+    """known_findings.json (committed list) plus per-property files known_findings.d/<ID>.json"""
+    out = []
     p = VERIF / 'known_findings.json'
-    if not p.exists():
-        return []
-    return json.loads(p.read_text())
+    if p.exists():
+        out += json.loads(p.read_text())
+    d = VERIF / 'known_findings.d'
+    if d.exists():
+        for f in sorted(d.glob('*.json')):
+            out += json.loads(f.read_text())
+    return out
 
 
 def write_replay(pid, n, data):
